@@ -362,7 +362,7 @@ impl<'a> Gen<'a> {
             }
             7 if self.cfg.natives && self.rng.chance(1, 2) => {
                 let a = self.expr(ty, depth + 1);
-                let f = *self.rng.pick(&["id", "gcNow", "id", "evalOther"]);
+                let f = *self.rng.pick(&["id", "gcNow", "id", "evalOther", "tryOther", "tryOther"]);
                 let f = if self.cfg.errors && self.rng.chance(1, 10) { "fail" } else { f };
                 return Node { ty: ty.clone(), parts: vec![t(format!("std.native(\"{f}\")(")), P::N(a), t(")")] };
             }
